@@ -103,7 +103,7 @@ where
 
                     let position = match position {
                         Some(position) if position < 2 && values.len() < 3 => 0,
-                        Some(position) if position < 2 && values.len() > 3 => values.len() - 2,
+                        Some(position) if position < 2 && values.len() >= 3 => values.len() - 2,
                         Some(position) => values.len() - position,
                         _ => 0,
                     };
